@@ -9,6 +9,8 @@
 package c16
 
 import (
+	"archive/zip"
+	"bytes"
 	"context"
 	"crypto"
 	"crypto/ecdsa"
@@ -18,7 +20,9 @@ import (
 	"crypto/sha512"
 	"crypto/x509"
 	"encoding/asn1"
+	"encoding/base64"
 	"encoding/hex"
+	"encoding/json"
 	"encoding/pem"
 	"errors"
 	"fmt"
@@ -39,6 +43,66 @@ import (
 func init() {
 	core.Register("c16", runRoundTrips)
 	core.Register("c16tlv", runTlv)
+	core.Register("c16replay", runReplay)
+}
+
+// c16replay <file>: re-executes the cases of a replay file on the code under test (inputs are taken from the file, every
+// observation is made afresh).
+func runReplay(c *core.Ctx) error {
+	if len(c.Args) < 1 {
+		return errors.New("usage: c16replay <replay.json>")
+	}
+	blob, err := os.ReadFile(c.Args[0])
+	if err != nil {
+		return err
+	}
+	var rp struct {
+		Cases []json.RawMessage `json:"cases"`
+	}
+	if err := json.Unmarshal(blob, &rp); err != nil {
+		return err
+	}
+	var specs []bspec
+	var dir string
+	var keys map[string]keyMat
+	for i, raw := range rp.Cases {
+		var head struct {
+			T     string `json:"t"`
+			X     string `json:"x"`
+			Label string `json:"label"`
+		}
+		if err := json.Unmarshal(raw, &head); err != nil {
+			return err
+		}
+		switch head.T {
+		case "rt":
+			var old rtCase
+			_ = json.Unmarshal(raw, &old)
+			x, _ := hex.DecodeString(head.X)
+			cs := &rtCase{T: "rt", ID: i, Src: old.Src, Mut: old.Mut, Valid: old.Valid, Expect: old.Expect}
+			observe(cs, x)
+			c.Emit(cs)
+		case "b":
+			if specs == nil {
+				dir = filepath.Join(c.Scratch, "c16")
+				os.RemoveAll(dir)
+				if _, err := makeCorpus(dir); err != nil {
+					return err
+				}
+				defer os.RemoveAll(dir)
+				keys = loadKeys(dir)
+				specs = builderSpecs()
+			}
+			for j, sp := range specs {
+				if sp.label == head.Label {
+					cs := &bCase{T: "b", ID: j, Label: sp.label, Key: sp.key, Hash: sp.hash, Mode: sp.mode, NSign: sp.nsign, Stamp: sp.stamp, InDom: sp.inDomain}
+					runBuilderCase(c, dir, keys, cs, sp.pre)
+					c.Emit(cs)
+				}
+			}
+		}
+	}
+	return nil
 }
 
 // ---------------------------------------------------------------- observations of a round trip
@@ -343,7 +407,9 @@ func tinySignedData() []byte {
 	oidData := []byte{0x06, 0x09, 0x2a, 0x86, 0x48, 0x86, 0xf7, 0x0d, 0x01, 0x07, 0x01}
 	oidSD := []byte{0x06, 0x09, 0x2a, 0x86, 0x48, 0x86, 0xf7, 0x0d, 0x01, 0x07, 0x02}
 	alg := func(last byte) []byte { return tlv(0x30, []byte{0x06, 0x03, 0x2a, 0x03, last}, []byte{0x05, 0x00}) }
-	attr := func(last byte, val []byte) []byte { return tlv(0x30, []byte{0x06, 0x03, 0x2a, 0x04, last}, tlv(0x31, val)) }
+	attr := func(last byte, val []byte) []byte {
+		return tlv(0x30, []byte{0x06, 0x03, 0x2a, 0x04, last}, tlv(0x31, val))
+	}
 	si := func(serial byte, withAttrs bool) []byte {
 		parts := [][]byte{{0x02, 0x01, 0x01}, tlv(0x30, tlv(0x30, tlv(0x31, tlv(0x30, []byte{0x06, 0x03, 0x55, 0x04, 0x03}, []byte{0x0c, 0x01, 'x'}))), []byte{0x02, 0x01, serial}), alg(1)}
 		if withAttrs {
@@ -460,22 +526,23 @@ type bCase struct {
 	Ctype  string `json:"ctype"`
 	Digest string `json:"digest"`
 	// model inputs taken from the certificate / algorithm identifiers relic chose
-	ContentEnc string    `json:"content_enc"` // encoded content inside [0] ("" when detached)
-	Pre        []preAttr `json:"pre"`
-	Certs      []string  `json:"certs"`
-	Issuer     string    `json:"issuer"`
-	Serial     string    `json:"serial"`
-	Dalg       [2]string `json:"dalg"`
-	Ealg       [2]string `json:"ealg"`
+	ContentEnc string     `json:"content_enc"`      // encoded content inside [0] ("" when detached)
+	CiRaw      string     `json:"ci_raw,omitempty"` // mode catalog: the ContentInfo taken over verbatim from a parsed catalog
+	Pre        []preAttr  `json:"pre"`
+	Certs      []string   `json:"certs"`
+	Issuer     string     `json:"issuer"`
+	Serial     string     `json:"serial"`
+	Dalg       [2]string  `json:"dalg"`
+	Ealg       [2]string  `json:"ealg"`
 	Rounds     []roundObs `json:"rounds"`
 	// timestamp embedding
-	Token        string `json:"token,omitempty"`   // as produced by OpenSSL
-	Stamped      string `json:"stamped,omitempty"` // TimestampAndMarshal(...).Raw
-	StampErr     string `json:"stamp_err,omitempty"`
-	StampedDet   string `json:"stamped_detached,omitempty"` // psd.Detach(); psd.Marshal() afterwards (the JAR / Apple path)
-	VerifyCMS    string `json:"verify_cms,omitempty"`
-	VerifyTS     string `json:"verify_ts,omitempty"`
-	Panic        string `json:"panic,omitempty"`
+	Token      string `json:"token,omitempty"`   // as produced by OpenSSL
+	Stamped    string `json:"stamped,omitempty"` // TimestampAndMarshal(...).Raw
+	StampErr   string `json:"stamp_err,omitempty"`
+	StampedDet string `json:"stamped_detached,omitempty"` // psd.Detach(); psd.Marshal() afterwards (the JAR / Apple path)
+	VerifyCMS  string `json:"verify_cms,omitempty"`
+	VerifyTS   string `json:"verify_ts,omitempty"`
+	Panic      string `json:"panic,omitempty"`
 }
 
 type keyMat struct {
@@ -716,6 +783,29 @@ func runBuilderCase(c *core.Ctx, dir string, keys map[string]keyMat, cs *bCase, 
 		if err := sb.SetDetachedContent(ctype, contentDigest); err != nil {
 			panic(err)
 		}
+	case "catalog":
+		// what signers/cat does: parse a Microsoft-signed catalog, keep its ContentInfo, sign again
+		blob, err := os.ReadFile(filepath.Join(repoRoot(), "functest/packages/hyperv.cat"))
+		if err != nil {
+			panic(err)
+		}
+		old, err := pkcs7.Unmarshal(blob)
+		if err != nil {
+			panic(err)
+		}
+		ctype = old.Content.ContentInfo.ContentType
+		if err := sb.SetContentInfo(old.Content.ContentInfo); err != nil {
+			panic(err)
+		}
+		raw := []byte(old.Content.ContentInfo.Raw)
+		cs.CiRaw = hex.EncodeToString(raw)
+		// digest of the contents octets of the element inside [0], located with the generator's own walker
+		if n, ok := parseOne(raw, 0, len(raw), 0); ok && len(n.children) == 2 && len(n.children[1].children) == 1 {
+			e := n.children[1].children[0]
+			w := newHash(h)
+			w.Write(raw[e.body():e.end()])
+			contentDigest = w.Sum(nil)
+		}
 	}
 	cs.Ctype = hex.EncodeToString(oidContents(ctype))
 	cs.Digest = hex.EncodeToString(contentDigest)
@@ -779,7 +869,7 @@ func runBuilderCase(c *core.Ctx, dir string, keys map[string]keyMat, cs *bCase, 
 		}
 		cs.Rounds = append(cs.Rounds, ro)
 	}
-	if cs.Stamp != "" && psd != nil && cs.Mode != "detached" {
+	if cs.Stamp != "" && psd != nil && cs.Mode != "detached" && len(cs.Rounds) > 0 && cs.Rounds[len(cs.Rounds)-1].SignErr == "" {
 		section := "tsa1"
 		if cs.ID%2 == 1 {
 			section = "tsa2"
@@ -834,6 +924,115 @@ func embeddedToken(b []byte) []byte {
 	return b[t.off:t.end()]
 }
 
+// relicBinarySamples runs the real relic binary (file token, functest key) on a catalog, a JAR and a PowerShell script and
+// extracts the PKCS#7 blobs it produced.  Skipped when a modified copy of relic is being checked (the binary is not rebuilt
+// for it; the same library paths are exercised in-process by the builder cases).
+func relicBinarySamples(dir string) ([]sample, error) {
+	if r := os.Getenv("VERIF_REPO"); r != "" && r != "/repo" {
+		return nil, nil
+	}
+	bin := "/verif/.build/relic"
+	if _, err := os.Stat(bin); err != nil {
+		return nil, nil
+	}
+	keys := filepath.Join(repoRoot(), "functest/testkeys")
+	conf := "tokens:\n  ft:\n    type: file\nkeys:\n  k1:\n    token: ft\n    keyfile: " + keys + "/rsa2048.key\n    x509certificate: " + keys + "/rsa2048.crt\n"
+	if err := os.WriteFile(filepath.Join(dir, "relic.yml"), []byte(conf), 0o600); err != nil {
+		return nil, err
+	}
+	var out []sample
+	for _, f := range []string{"hyperv.cat", "hello.jar", "hello.ps1"} {
+		src := filepath.Join(repoRoot(), "functest/packages", f)
+		dst := filepath.Join(dir, "signed-"+f)
+		cmd := exec.Command(bin, "-c", filepath.Join(dir, "relic.yml"), "sign", "-k", "k1", "-f", src, "-o", dst)
+		if o, err := cmd.CombinedOutput(); err != nil {
+			return nil, fmt.Errorf("relic sign %s: %v: %s", f, err, tail(string(o), 300))
+		}
+		b, err := os.ReadFile(dst)
+		if err != nil {
+			return nil, err
+		}
+		var blob []byte
+		switch f {
+		case "hyperv.cat":
+			blob = b
+		case "hello.jar":
+			zr, err := zip.NewReader(bytes.NewReader(b), int64(len(b)))
+			if err != nil {
+				return nil, err
+			}
+			for _, zf := range zr.File {
+				if strings.HasPrefix(zf.Name, "META-INF/") && strings.HasSuffix(zf.Name, ".RSA") {
+					rc, err := zf.Open()
+					if err != nil {
+						return nil, err
+					}
+					var buf bytes.Buffer
+					buf.ReadFrom(rc)
+					rc.Close()
+					blob = buf.Bytes()
+				}
+			}
+		case "hello.ps1":
+			var b64 strings.Builder
+			in := false
+			for _, ln := range strings.Split(strings.ReplaceAll(string(b), "\r", ""), "\n") {
+				switch {
+				case strings.Contains(ln, "SIG # Begin signature block"):
+					in = true
+				case strings.Contains(ln, "SIG # End signature block"):
+					in = false
+				case in:
+					b64.WriteString(strings.TrimSpace(strings.TrimPrefix(ln, "#")))
+				}
+			}
+			blob, _ = base64.StdEncoding.DecodeString(b64.String())
+		}
+		if len(blob) == 0 {
+			return nil, fmt.Errorf("no PKCS#7 blob found in relic's output for %s", f)
+		}
+		out = append(out, sample{Label: "relicbin_" + strings.ReplaceAll(f, ".", "_"), Der: blob, Kind: "pkcs7"})
+	}
+	return out, nil
+}
+
+type bspec struct {
+	label, key, hash, mode string
+	pre                    preSpec
+	nsign                  int
+	stamp                  string
+	inDomain               bool
+}
+
+func builderSpecs() []bspec {
+	oidSigningTime := pkcs7.OidAttributeSigningTime
+	oidCustom := asn1.ObjectIdentifier{1, 3, 6, 1, 4, 1, 311, 2, 1, 11}
+	oidCustom2 := asn1.ObjectIdentifier{1, 2, 840, 113635, 100, 9, 1}
+	t0 := time.Date(2026, 9, 29, 12, 0, 0, 0, time.UTC)
+	specs := []bspec{
+		{"noattrs", "rsa", "sha256", "data", nil, 1, "", true},
+		{"noattrs-ec", "ec", "sha256", "data", nil, 1, "cms", true},
+		{"noattrs-detached", "rsa", "sha256", "detached", nil, 1, "", true},
+		{"signingtime", "rsa", "sha256", "data", preSpec{{oidSigningTime, t0, "signing-time"}}, 1, "cms", true},
+		{"signingtime-ec384", "ec", "sha384", "data", preSpec{{oidSigningTime, t0, "signing-time"}}, 1, "authenticode", true},
+		{"signingtime-pss", "pss", "sha256", "data", preSpec{{oidSigningTime, t0, "signing-time"}}, 1, "cms", true},
+		{"authenticode-like", "rsa", "sha256", "struct", preSpec{{oidCustom, spcStatement{asn1.ObjectIdentifier{1, 3, 6, 1, 4, 1, 311, 2, 1, 21}}, "statement-type"}, {asn1.ObjectIdentifier{1, 3, 6, 1, 4, 1, 311, 2, 1, 12}, struct{}{}, "opus-info"}}, 1, "authenticode", true},
+		{"apple-like", "ec", "sha256", "data", preSpec{{oidCustom2, []byte{1, 2, 3}, "cdhash-plist"}, {asn1.ObjectIdentifier{1, 2, 840, 113635, 100, 9, 2}, spcStatement{asn1.ObjectIdentifier{2, 16, 840, 1, 101, 3, 4, 2, 1}}, "cdhashes"}, {oidSigningTime, t0, "signing-time"}}, 1, "cms", true},
+		{"same-oid-twice", "rsa", "sha256", "data", preSpec{{oidCustom2, []byte{1}, "v1"}, {oidCustom2, []byte{2, 2}, "v2"}}, 1, "", true},
+		{"detached-attrs", "rsa", "sha512", "detached", preSpec{{oidSigningTime, t0, "signing-time"}}, 1, "", true},
+		{"sha1-attrs", "rsa", "sha1", "data", preSpec{{oidSigningTime, t0, "signing-time"}}, 1, "cms", true},
+		{"many-attrs", "ec", "sha512", "data", preSpec{{asn1.ObjectIdentifier{1, 2, 3, 1}, 1, "a1"}, {asn1.ObjectIdentifier{1, 2, 3, 2}, "two", "a2"}, {asn1.ObjectIdentifier{1, 2, 3, 3}, []byte{}, "a3"}, {asn1.ObjectIdentifier{2, 999, 3}, 300, "a4"}, {oidSigningTime, t0, "signing-time"}}, 1, "cms", true},
+		{"catalog-resign", "rsa", "sha256", "catalog", nil, 1, "authenticode", true},
+		{"catalog-resign-attrs", "ec", "sha256", "catalog", preSpec{{oidCustom, spcStatement{asn1.ObjectIdentifier{1, 3, 6, 1, 4, 1, 311, 2, 1, 21}}, "statement-type"}}, 1, "", true},
+		// outside the domain of builder_attrs_once (witnesses of the _refuted theorems, replayed on the real code)
+		{"pre-content-type", "rsa", "sha256", "data", preSpec{{pkcs7.OidAttributeContentType, asn1.ObjectIdentifier{1, 2, 3}, "caller content-type"}}, 1, "", false},
+		{"pre-message-digest", "rsa", "sha256", "data", preSpec{{pkcs7.OidAttributeMessageDigest, []byte{9, 9}, "caller message-digest"}}, 1, "", false},
+		{"sign-twice", "rsa", "sha256", "data", preSpec{{oidSigningTime, t0, "signing-time"}}, 2, "", false},
+		{"sign-twice-noattrs", "rsa", "sha256", "data", nil, 2, "", true},
+	}
+	return specs
+}
+
 type preSpec = []struct {
 	oid asn1.ObjectIdentifier
 	val interface{}
@@ -867,6 +1066,15 @@ func runRoundTrips(c *core.Ctx) error {
 			}
 		}
 	}
+	if blob, err := os.ReadFile(filepath.Join(repoRoot(), "functest/packages/hyperv.cat")); err == nil {
+		// a catalog signed and countersigned (timestamped) by Microsoft: third-party signatures relic must carry unchanged
+		samples = append(samples, sample{Label: "ms_catalog", Der: blob, Kind: "pkcs7"})
+	}
+	bin, err := relicBinarySamples(dir)
+	if err != nil {
+		return err
+	}
+	samples = append(samples, bin...)
 	samples = append(samples, sample{Label: "tiny", Der: tinySignedData(), Kind: "synthetic"})
 	rng := &core.Rng{S: c.Seed*0x9e3779b97f4a7c15 + 16}
 	id := 0
@@ -903,36 +1111,7 @@ func runRoundTrips(c *core.Ctx) error {
 	}
 	// ---- builder
 	keys := loadKeys(dir)
-	oidSigningTime := pkcs7.OidAttributeSigningTime
-	oidCustom := asn1.ObjectIdentifier{1, 3, 6, 1, 4, 1, 311, 2, 1, 11}
-	oidCustom2 := asn1.ObjectIdentifier{1, 2, 840, 113635, 100, 9, 1}
-	t0 := time.Date(2026, 9, 29, 12, 0, 0, 0, time.UTC)
-	type bspec struct {
-		label, key, hash, mode string
-		pre                    preSpec
-		nsign                  int
-		stamp                  string
-		inDomain               bool
-	}
-	specs := []bspec{
-		{"noattrs", "rsa", "sha256", "data", nil, 1, "", true},
-		{"noattrs-ec", "ec", "sha256", "data", nil, 1, "cms", true},
-		{"noattrs-detached", "rsa", "sha256", "detached", nil, 1, "", true},
-		{"signingtime", "rsa", "sha256", "data", preSpec{{oidSigningTime, t0, "signing-time"}}, 1, "cms", true},
-		{"signingtime-ec384", "ec", "sha384", "data", preSpec{{oidSigningTime, t0, "signing-time"}}, 1, "authenticode", true},
-		{"signingtime-pss", "pss", "sha256", "data", preSpec{{oidSigningTime, t0, "signing-time"}}, 1, "cms", true},
-		{"authenticode-like", "rsa", "sha256", "struct", preSpec{{oidCustom, spcStatement{asn1.ObjectIdentifier{1, 3, 6, 1, 4, 1, 311, 2, 1, 21}}, "statement-type"}, {asn1.ObjectIdentifier{1, 3, 6, 1, 4, 1, 311, 2, 1, 12}, struct{}{}, "opus-info"}}, 1, "authenticode", true},
-		{"apple-like", "ec", "sha256", "data", preSpec{{oidCustom2, []byte{1, 2, 3}, "cdhash-plist"}, {asn1.ObjectIdentifier{1, 2, 840, 113635, 100, 9, 2}, spcStatement{asn1.ObjectIdentifier{2, 16, 840, 1, 101, 3, 4, 2, 1}}, "cdhashes"}, {oidSigningTime, t0, "signing-time"}}, 1, "cms", true},
-		{"same-oid-twice", "rsa", "sha256", "data", preSpec{{oidCustom2, []byte{1}, "v1"}, {oidCustom2, []byte{2, 2}, "v2"}}, 1, "", true},
-		{"detached-attrs", "rsa", "sha512", "detached", preSpec{{oidSigningTime, t0, "signing-time"}}, 1, "", true},
-		{"sha1-attrs", "rsa", "sha1", "data", preSpec{{oidSigningTime, t0, "signing-time"}}, 1, "cms", true},
-		{"many-attrs", "ec", "sha512", "data", preSpec{{asn1.ObjectIdentifier{1, 2, 3, 1}, 1, "a1"}, {asn1.ObjectIdentifier{1, 2, 3, 2}, "two", "a2"}, {asn1.ObjectIdentifier{1, 2, 3, 3}, []byte{}, "a3"}, {asn1.ObjectIdentifier{2, 999, 3}, 300, "a4"}, {oidSigningTime, t0, "signing-time"}}, 1, "cms", true},
-		// outside the domain of builder_attrs_once (witnesses of the _refuted theorems, replayed on the real code)
-		{"pre-content-type", "rsa", "sha256", "data", preSpec{{pkcs7.OidAttributeContentType, asn1.ObjectIdentifier{1, 2, 3}, "caller content-type"}}, 1, "", false},
-		{"pre-message-digest", "rsa", "sha256", "data", preSpec{{pkcs7.OidAttributeMessageDigest, []byte{9, 9}, "caller message-digest"}}, 1, "", false},
-		{"sign-twice", "rsa", "sha256", "data", preSpec{{oidSigningTime, t0, "signing-time"}}, 2, "", false},
-		{"sign-twice-noattrs", "rsa", "sha256", "data", nil, 2, "", true},
-	}
+	specs := builderSpecs()
 	for i, sp := range specs {
 		cs := &bCase{T: "b", ID: i, Label: sp.label, Key: sp.key, Hash: sp.hash, Mode: sp.mode, NSign: sp.nsign, Stamp: sp.stamp, InDom: sp.inDomain}
 		runBuilderCase(c, dir, keys, cs, sp.pre)
@@ -989,7 +1168,7 @@ func stripHdr(b []byte) []byte {
 
 func runTlv(c *core.Ctx) error {
 	// tag/length reader: identifier octets x length octets x available body, against asn1.Unmarshal into a RawValue
-	ids := []byte{0x30, 0x04, 0xa0, 0x1f, 0x3f, 0x00, 0x9e}
+	ids := []byte{0x30, 0x04, 0xa0, 0x9e, 0x1f}
 	lens := [][]byte{}
 	small := []byte{0x00, 0x01, 0x02, 0x7f, 0x80, 0x81, 0x82, 0x83, 0x84, 0x85, 0xff}
 	vals := []byte{0x00, 0x01, 0x7f, 0x80, 0xff}
